@@ -32,7 +32,7 @@ static const vrt_field_t node_fields[] = {
     {"next", offsetof(mpsc_fifo_node_t, next), 8, VD_PTR, 0, 0},
 };
 int vrt_fiber_track_nodes = 1;
-static struct { fiber_t* f; uintptr_t lo, hi; } g_stk[64];
+static struct { fiber_t* f; uintptr_t lo, hi; } g_stk[128];
 static int g_nstk;
 
 
@@ -64,7 +64,7 @@ void libfiber_verif_fiber_created(fiber_t* f, int from_thread) {
     snprintf(nm2, sizeof nm2, "stk_%s", nm);
     vrt_reg_name(nm2, f->context.ctx_stack, f->context.ctx_stack_size);
     vrt_watch_free(f->context.ctx_stack);
-    if (g_nstk < 64) {
+    if (g_nstk < 128) {
       g_stk[g_nstk].f = f;
       g_stk[g_nstk].lo = (uintptr_t)f->context.ctx_stack;
       g_stk[g_nstk].hi = g_stk[g_nstk].lo + f->context.ctx_stack_size;
@@ -152,7 +152,7 @@ void vrt_mpsc_q(const mpsc_fifo_t* f, char* out, size_t cap) {
   n += (size_t)snprintf(out + n, cap - n, "[");
   const mpsc_fifo_node_t* h = f->head;
   int first = 1, guard = 0;
-  for (const mpsc_fifo_node_t* x = h ? h->next : NULL; x && n + 48 < cap && guard < 64; x = x->next, guard++) {
+  for (const mpsc_fifo_node_t* x = h ? h->next : NULL; x && n + 48 < cap && guard < 200; x = x->next, guard++) {
     n += (size_t)snprintf(out + n, cap - n, "%s\"%s\"", first ? "" : ",", vrt_name_of(x->data));
     first = 0;
   }
